@@ -55,6 +55,24 @@ pub fn shapes(tier: Tier) -> Vec<Shape> {
         v.push(OpSpec::bucket("create", &["b"], "s06"));
         v
     }));
+    // the empty byte string as a stored key and as the name of a nested bucket
+    for n in [1usize, 5] {
+        let mut setup = leaf_shape(n, "v*30");
+        setup.push(tx(vec![OpSpec::put(&["b"], "", "empty-key-value")]));
+        out.push(mk(&format!("leaf-n{}-with-empty-key", n), &d, setup, vec![]));
+        let mut setup = leaf_shape(n, "v*30");
+        setup.push(tx(vec![OpSpec::bucket("create", &["b"], ""), OpSpec::put(&["b", ""], "in", "v*8")]));
+        out.push(mk(&format!("leaf-n{}-with-bucket-named-empty", n), &d, setup, vec![]));
+    }
+    out.push(mk("leaf-n5-midtx-empty-key", &d, leaf_shape(5, "v*30"), vec![OpSpec::put(&["b"], "", "z"), OpSpec::bucket("create", &["b"], "s02")]));
+    for b in SUBSET_BASES.iter().filter(|b| b.n == 6 || b.n == 12) {
+        let mut setup = subset_setup(b);
+        setup.push(tx(vec![OpSpec::put(&["b"], "", "w*300")]));
+        out.push(mk(&format!("{}-with-empty-key", b.name), &d, setup, vec![]));
+        let mut setup = subset_setup(b);
+        setup.push(tx(vec![OpSpec::bucket("create", &["b"], ""), OpSpec::put(&["b", ""], "", "v*8")]));
+        out.push(mk(&format!("{}-with-bucket-named-empty", b.name), &d, setup, vec![]));
+    }
     // multi-level shapes from the subset driver's bases, committed and mid-transaction
     for b in SUBSET_BASES.iter() {
         if b.n < 6 {
